@@ -11,29 +11,38 @@ namespace Jence
 
 def promos (white : Bool) : List Nat := if white then [WQ, WN, WR, WB] else [BQ, BN, BR, BB]
 
-/-- all moves of one pawn, in push order -/
-def pawnMoves (g : Game) (all : Bool) (fromSq : Nat) : List Move :=
+/-- pushes of one pawn: single (with promotions on the last row) and double -/
+def pawnQuiet (g : Game) (fromSq : Nat) : List Move :=
   let white := g.white
   let pawn := if white then WP else BP
   let toSq := if white then u8sub8 fromSq else u8add8 fromSq
   let notLast := if white then toSq >= 8 else toSq <= 55
-  let quiet :=
-    if all && !getBit g.allOcc toSq then
-      if notLast then
-        let to2 := if white then u8sub8 toSq else u8add8 toSq
-        Move.mk' fromSq toSq pawn PNONE false false false false ::
-          (if !getBit g.allOcc to2 && fromSq / 8 == (if white then 6 else 1)
-           then [Move.mk' fromSq to2 pawn PNONE false true false false] else [])
-      else (promos white).map fun p => Move.mk' fromSq toSq pawn p false false false false
-    else []
-  let attacks := getPawnAttacks fromSq white
-  let epm :=
-    if g.ep != SQNONE && !isEmpty (attacks &&& bit g.ep)
-    then [Move.mk' fromSq g.ep pawn PNONE true false true false] else []
-  let caps := (bitsOf (attacks &&& (if white then g.blackOcc else g.whiteOcc))).flatMap fun t =>
+  if !getBit g.allOcc toSq then
+    if notLast then
+      let to2 := if white then u8sub8 toSq else u8add8 toSq
+      Move.mk' fromSq toSq pawn PNONE false false false false ::
+        (if !getBit g.allOcc to2 && fromSq / 8 == (if white then 6 else 1)
+         then [Move.mk' fromSq to2 pawn PNONE false true false false] else [])
+    else (promos white).map fun p => Move.mk' fromSq toSq pawn p false false false false
+  else []
+
+/-- the en-passant capture of one pawn -/
+def pawnEp (g : Game) (fromSq : Nat) : List Move :=
+  let pawn := if g.white then WP else BP
+  if g.ep != SQNONE && !isEmpty (getPawnAttacks fromSq g.white &&& bit g.ep)
+  then [Move.mk' fromSq g.ep pawn PNONE true false true false] else []
+
+/-- the ordinary captures of one pawn (with promotions on the last row) -/
+def pawnCaps (g : Game) (fromSq : Nat) : List Move :=
+  let white := g.white
+  let pawn := if white then WP else BP
+  (bitsOf (getPawnAttacks fromSq white &&& (if white then g.blackOcc else g.whiteOcc))).flatMap fun t =>
     if (if white then t >= 8 else t <= 55) then [Move.mk' fromSq t pawn PNONE true false false false]
     else (promos white).map fun p => Move.mk' fromSq t pawn p true false false false
-  quiet ++ epm ++ caps
+
+/-- all moves of one pawn, in push order: pushes (mode All only), en passant, captures -/
+def pawnMoves (g : Game) (all : Bool) (fromSq : Nat) : List Move :=
+  (if all then pawnQuiet g fromSq else []) ++ pawnEp g fromSq ++ pawnCaps g fromSq
 
 def castlingMoves (g : Game) (all : Bool) : List Move :=
   if !all then [] else
